@@ -362,7 +362,7 @@ def poly_terms(cases, results):
 
 
 def gen(tier, rng, allowed):
-    n_tie, n_oracle = (90, 700) if tier == 'quick' else (600, 8000)
+    n_tie, n_oracle = (75, 700) if tier == 'quick' else (600, 8000)
     n_poly = 150 if tier == 'quick' else 2000
     cases = [gen_poly_case(rng) for _ in range(n_poly)]
     for i in range(n_tie + n_oracle):
